@@ -92,22 +92,28 @@ Section Zmethod.
   (* py: 240-243: x_range for the pair (x_diff[i], x_diff[i+1]); `first` is i == 0 *)
   Definition grp (cs : list row) (first : bool) (p : nat * nat) : list row :=
     filter (fun r => (first || (xat cs (fst p) <?! rx r)) && (rx r <=?! xat cs (snd p))) cs.
-  Definition groups (cs : list row) (xd : list nat) : list (list row) :=
-    match combine xd (tl xd) with
+  (* py: 235, 238: x_diff = [0] ++ gaps ++ [len-1]; the loop visits the pairs (x_diff[i], x_diff[i+1]) *)
+  Fixpoint pairs_from (lo : nat) (rest : list nat) : list (nat * nat) :=
+    match rest with
     | [] => []
-    | p :: ps => grp cs true p :: map (grp cs false) ps
+    | hi :: rest' => (lo, hi) :: pairs_from hi rest'
     end.
+  (* py: 240: `if i == 0` *)
+  Definition flag_first {A} (l : list A) : list (bool * A) :=
+    match l with [] => [] | a :: l' => (true, a) :: map (pair false) l' end.
   (* py: 245-247: row of lowest y, its z replaced by the lowest z of the group; np.argmin of an empty array raises *)
   Definition best_of (g : list row) : option row :=
     match g with
     | [] => None
     | _ => Some (xy (nth (argmin (map ry g)) g row0), rz (nth (argmin (map rz g)) g row0))
     end.
+  Definition group_best (cs : list row) (fp : bool * (nat * nat)) : option row :=
+    best_of (grp cs (fst fp) (snd fp)).
   (* py: 224-248: the candidate outliers of a round, before sorting (cs non-empty) *)
   Definition cand_outliers (w : T N) (cs : list row) : option (list row) :=
     match gaps w cs with
     | [] => Some [nth (argmin (map ry cs)) cs row0]
-    | gs => all_some (map best_of (groups cs (0 :: gs ++ [length cs - 1])))
+    | gs => all_some (map (group_best cs) (flag_first (pairs_from 0 (gs ++ [length cs - 1]))))
     end.
   (* py: 217, 223: candidates = points[points[:,2] >= outlier_z]; nothing to do when there is none *)
   Definition round_cands (w thr : T N) (pts : list row) : option (list row) :=
@@ -121,14 +127,14 @@ Section Zmethod.
 
     (* py: 252-261: process the ordered candidate outliers, then the terminating conditions *)
     Definition step (thr : T N) (j : nat) (pts : list row) (outs : list pt) (ol : list row)
-      : zres (list pt) + (list row * list pt) :=
+      : zres (list row * list pt) + (list row * list pt) :=
       let '(pts', outs', added) := fold_left (select w h) ol (pts, outs, 0) in
       if (length pts' =? 0) || ((thr <=?! minz) && (added =? 0))
-      then inl (RDone outs' (S j)) else inr (pts', outs').
+      then inl (RDone (pts', outs') (S j)) else inr (pts', outs').
 
     (* py: 214-263 for one processing order `ord` (round number -> candidate outliers -> the order they are processed in) *)
     Fixpoint loop (ord : nat -> list row -> list row) (fuel j : nat) (thr : T N) (pts : list row) (outs : list pt)
-      : zres (list pt) :=
+      : zres (list row * list pt) :=
       match fuel with
       | O => RFuel
       | S f =>
@@ -163,7 +169,7 @@ Section Zmethod.
       else Some (fold_right (fun B acc => flat_map (fun p => map (app p) acc) (perms B)) [[]] bs).
 
     (* the results reachable under all orders of tied candidates; None = more than `cap` of them *)
-    Fixpoint explore (fuel j : nat) (thr : T N) (pts : list row) (outs : list pt) : option (list (zres (list pt))) :=
+    Fixpoint explore (fuel j : nat) (thr : T N) (pts : list row) (outs : list pt) : option (list (zres (list row * list pt))) :=
       match fuel with
       | O => Some [RFuel]
       | S f =>
@@ -232,11 +238,11 @@ Section Zmethod.
                | Some wz => Some (mkZP (ofZ wz) ((ymax -! ymin) *! dy) (py_min (map rz rows)))
                end).
 
-  Definition finish_res (r : zres (list pt)) : zres (list (Z * T N)) :=
+  Definition finish_res (r : zres (list row * list pt)) : zres (list (Z * T N)) :=
     match r with
     | RFuel => RFuel
     | RErr => RErr
-    | RDone outs rounds => match finish outs with None => RErr | Some d => RDone d rounds end
+    | RDone st rounds => match finish (snd st) with None => RErr | Some d => RDone d rounds end
     end.
 
   (* py: 155-286 getPoints(points, dx, dy, dz, False, x_max, y_range): the surviving (key, height) pairs, ascending keys *)
